@@ -134,25 +134,50 @@ Proof.
   intros [<-|[]]. reflexivity.
 Qed.
 
+Lemma walk_gen_paths_nonempty deep t r : In r (walk_gen deep t) -> fst r <> [].
+Proof.
+  destruct t as [c|es]; [intros []|]. rewrite walk_gen_dir. intros H.
+  apply in_flat_map in H as ([n c] & _ & Hr). destruct (step_head deep n c r Hr) as [q ->]. discriminate.
+Qed.
+
+(** the root of an object answers for that object *)
+Lemma get_by_path_root t p ces i :
+  names_unique t = true -> In (p, ces) (spec_roots t) -> In i (root_id (p, ces)) ->
+  get_inventory_by_path t i p = Found p i.
+Proof.
+  intros U Hr Hi. pose proof (walk_gen_paths_nonempty false _ _ Hr) as Np. cbn [fst] in Np.
+  pose proof (walk_gen_roots false _ _ Hr) as R. cbn [snd] in R.
+  pose proof (root_id_parse _ _ Hi) as Q. cbn [snd] in Q.
+  unfold get_inventory_by_path, object_like. destruct p as [|n q]; [congruence|].
+  rewrite (lookup_spec t _ ces U Hr), R. cbn [orb]. now rewrite Q, bytes_eqb_refl.
+Qed.
+
 Lemma get_by_path_committed m t i :
   names_unique t = true -> Placed m t -> In i (committed_ids t) ->
   get_inventory_by_path t i (m i) = Found (m i) i.
 Proof.
   intros U P H. destruct (in_committed_inv t i H) as ([p ces] & Hr & Hi).
-  pose proof (P _ _ Hr Hi) as E. cbn [fst] in E. subst p.
-  unfold get_inventory_by_path. rewrite (lookup_spec t _ ces U Hr).
-  pose proof (root_id_parse _ _ Hi) as Q. cbn [snd] in Q. rewrite Q, bytes_eqb_refl. reflexivity.
+  pose proof (P _ _ Hr Hi) as E. cbn [fst] in E. subst p. apply (get_by_path_root t _ ces i U Hr Hi).
 Qed.
+
+(** whatever is at the path, if it does not look like an object the answer is NotFound
+    (nothing, a regular file, a directory without declaration and inventory) *)
+Lemma get_by_path_not_object t i p : object_like t p = false -> get_inventory_by_path t i p = NotFound.
+Proof. intros H. unfold get_inventory_by_path. destruct p; [reflexivity|]. now rewrite H. Qed.
+
+Lemma get_inside_object t i p :
+  nested_in_object t p = true -> c19_layout_path_inside_object t p = false ->
+  get_inventory_by_path t i p = NotFound.
+Proof.
+  unfold c19_layout_path_inside_object. intros N K. rewrite N in K. cbn [andb] in K.
+  apply get_by_path_not_object, K.
+Qed.
+
+Lemma object_like_free t p : lookup_path t p = None -> object_like t p = false.
+Proof. intros H. unfold object_like. now rewrite H. Qed.
 
 Lemma get_by_path_free t i p : lookup_path t p = None -> get_inventory_by_path t i p = NotFound.
-Proof. intros H. unfold get_inventory_by_path. now rewrite H. Qed.
-
-Lemma get_by_path_occupied t i p : c19_layout_path_occupied t p = true -> get_inventory_by_path t i p = GenErr.
-Proof.
-  unfold c19_layout_path_occupied, get_inventory_by_path.
-  destruct (lookup_path t p) as [[c|ces]|]; try discriminate; [reflexivity|].
-  destruct (parse_inventory ces); try discriminate; reflexivity.
-Qed.
+Proof. intros H. apply get_by_path_not_object, object_like_free, H. Qed.
 
 (** * purge *)
 Lemma step_paths_head deep n c r : In r (step deep (n, c)) -> exists q, fst r = n :: q.
@@ -215,12 +240,6 @@ Proof.
   destruct (bytes_eqb m n); [|reflexivity]. unfold is_decl_entry. cbn [fst snd].
   destruct c as [fc|es]; [reflexivity|]. destruct (remove_at_dir_shape (Dir es) q (ex_intro _ es eq_refl)) as [es' ->].
   reflexivity.
-Qed.
-
-Lemma walk_gen_paths_nonempty deep t r : In r (walk_gen deep t) -> fst r <> [].
-Proof.
-  destruct t as [c|es]; [intros []|]. rewrite walk_gen_dir. intros H.
-  apply in_flat_map in H as ([n c] & _ & Hr). destruct (step_paths_head deep n c r Hr) as [q ->]. discriminate.
 Qed.
 
 Lemma map_push_filter_not_at n p l :
@@ -494,8 +513,7 @@ Proof.
   intros U E. apply existsb_exists in E as ([p' ces] & Hr & Hx). unfold root_is in Hx.
   apply andb_true_iff in Hx as [Hp Hx]. cbn [fst] in Hp. apply path_eqb_eq in Hp. subst p'.
   apply existsb_exists in Hx as (j & Hj & Ej). apply bytes_eqb_eq in Ej. subst j. split.
-  - unfold get_inventory_by_path. rewrite (lookup_spec t p ces U Hr).
-    pose proof (root_id_parse _ _ Hj) as Q. cbn [snd] in Q. now rewrite Q, bytes_eqb_refl.
+  - apply (get_by_path_root t p ces i U Hr Hj).
   - unfold committed_ids. apply in_flat_map. eauto.
 Qed.
 
@@ -534,7 +552,7 @@ Qed.
 Lemma get_inventory_layout m c t i :
   names_unique t = true -> Placed m t -> cache_of_layout m c = true ->
   (In i (committed_ids t) -> exists p, fst (get_inventory (Some m) c t i) = Found p i) /\
-  (~ In i (committed_ids t) -> lookup_path t (m i) = None -> fst (get_inventory (Some m) c t i) = NotFound).
+  (~ In i (committed_ids t) -> object_like t (m i) = false -> fst (get_inventory (Some m) c t i) = NotFound).
 Proof.
   intros U P S.
   assert (E : fst (get_inventory (Some m) c t i) = get_inventory_by_path t i (m i)).
@@ -542,7 +560,7 @@ Proof.
     now rewrite (cache_of_layout_get m c i p S G). }
   rewrite E. split.
   - intros H. exists (m i). apply get_by_path_committed; assumption.
-  - intros _ L. apply get_by_path_free, L.
+  - intros _ L. apply get_by_path_not_object, L.
 Qed.
 
 Lemma purged_not_found_lemma gm t p ces i :
@@ -579,7 +597,7 @@ Proof. unfold list_staged_objects. apply listing_glob_lemma. Qed.
 Lemma get_by_layout_path_lemma m t i :
   names_unique t = true -> Placed m t ->
   (In i (committed_ids t) -> get_inventory_by_path t i (m i) = Found (m i) i) /\
-  (lookup_path t (m i) = None -> get_inventory_by_path t i (m i) = NotFound).
+  (object_like t (m i) = false -> get_inventory_by_path t i (m i) = NotFound).
 Proof.
-  intros U P. split; [exact (get_by_path_committed m t i U P)| exact (get_by_path_free t i (m i))].
+  intros U P. split; [exact (get_by_path_committed m t i U P)| exact (get_by_path_not_object t i (m i))].
 Qed.
